@@ -44,7 +44,8 @@ REACH = {
         "fault_drop_h2n", "fault_corrupt_h2n", "fault_dup_h2n", "fault_stall_h2n",
         "fault_drop_n2h", "fault_corrupt_n2h", "fault_dup_n2h", "fault_stall_n2h",
         "window_1", "window_2", "window_3", "send_raised", "reactive_send_from_upper_layer_callback",
-        "reads_coalesced", "duplicate_in_one_read", "reset_in_mid_session", "old_session_frame_after_host_rst"]
+        "reads_coalesced", "duplicate_in_one_read", "reset_in_mid_session", "old_session_frame_after_host_rst",
+        "ncp_frames_acknowledged_by_a_host_that_gave_up", "fullstack_c01_judged", "fullstack_faults_both_directions"]
     for t in ("quick", "thorough")
 }
 SHARD_TIMEOUT = {"quick": 900, "thorough": 3600}
@@ -98,6 +99,8 @@ def run_case(case):
         line = Line(loop, trace, vector=case.get("vector", ()), rate=case.get("rate", 0.0),
                     seed=case.get("seed", 0) + 17, chunking=case.get("chunking", "whole"))
         line.dup_in_one_read = bool(case.get("dup1"))
+        for d_, v_ in (case.get("dir_vector") or {}).items():
+            line.dir_vector[d_] = list(v_)
         up = Upper(trace, clock)
         proto = ash.AshProtocol(up)
         tr = HostTransport(line)
@@ -105,8 +108,9 @@ def run_case(case):
 
         nh, nn = case.get("nh", 0), case.get("nn", 0)
         n_react_h, n_react_n = case.get("reactive", 0), case.get("ncp_reactive", 0)
+        n_after = case.get("after_failure", 0)
         hp = [payload("H", i, rnd) for i in range(nh + n_react_h)]
-        npl = [payload("N", i, rnd) for i in range(nn + n_react_n)]
+        npl = [payload("N", i, rnd) for i in range(nn + n_react_n + n_after)]
         tasks = {}
         order = []      # host payload indices in the order send_data() was called
         n_order = []    # NCP payload indices in the order submit() was called
@@ -119,7 +123,7 @@ def run_case(case):
 
         def ncp_up(p):
             trace.append(("n_up", clock(), bytes(p)))
-            if nxt["n"] < len(npl):
+            if nxt["n"] < nn + n_react_n:
                 # the NCP answers an incoming payload with one of its own (a response / callback)
                 i = nxt["n"]
                 nxt["n"] += 1
@@ -219,6 +223,20 @@ def run_case(case):
                 break
             await asyncio.sleep(0.5)
         await asyncio.sleep(8)
+        if n_after and any(e[0] == "h_reset" and e[2] != 0x0B for e in trace) and not ncp.failed:
+            # The host has given up on the link (a verdict of its own: the NCP is alive and well and goes on
+            # using the line, which works again).  What the NCP sends now and sees acknowledged is still owed
+            # to the host's upper layer.
+            trace.append(("after_failure_phase", clock()))
+            line.dir_vector = {"h2n": [], "n2h": []}
+            for j in range(n_after):
+                ncp_submit(nn + n_react_n + j)
+                await asyncio.sleep(case.get("gap", 0.0) or 0.05)
+            t_end = clock() + 40
+            while clock() < t_end and not ncp.failed and (ncp.queue or ncp.unacked):
+                await asyncio.sleep(0.5)
+            await asyncio.sleep(4)
+            info["after_failure_acked"] = sum(1 for p in ncp.acked_payloads if p in npl[nn + n_react_n:])
         for t_ in tasks.values():
             if not t_.done():
                 t_.cancel()
@@ -312,7 +330,7 @@ def judge(case, trace, info):
     # them random) and a clean line afterwards, no send may be lost - in particular not because
     # *another* caller was cancelled
     nfaults = sum(1 for v in case.get("vector", ()) if v != "ok")
-    if not case.get("rate") and nfaults <= 3 and case.get("reset_at") is None:
+    if not case.get("rate") and nfaults <= 3 and case.get("reset_at") is None and not case.get("dir_vector"):
         cancelled = {e[2] for e in trace if e[0] in ("h_cancel_req", "h_cancelled")}
         for i, p in enumerate(hp_all):
             if i in cancelled or p not in hp:
@@ -390,6 +408,8 @@ def run_one(acc: Acc, case):
         acc.hit("cancelled_but_delivered")
     if facts.get("host_failed"):
         acc.hit("host_failed_run")
+    if info.get("after_failure_acked"):
+        acc.hit("ncp_frames_acknowledged_by_a_host_that_gave_up", info["after_failure_acked"])
     if facts.get("raised"):
         acc.hit("send_raised")
     for d, fs in info.get("faults", {}).items():
@@ -468,6 +488,21 @@ def gen_cases(tier, seed):
                 cases.append(dict(nh=0, nn=2, nburst=1, reactive=2, ncp_reactive=1, vector=list(vec), window=1 + (at + hv) % 2,
                                   chunking="whole", seed=seed, reset_at=[at, delay, "failed" if (at + hv // 2) % 2 else "healthy"],
                                   traffic="midreset", gap=0.3))
+    # one direction goes dark for a while: the host runs out of attempts and gives up although the NCP is alive
+    # (every acknowledgement lost; or every host frame lost / corrupted, so that the NCP answers with NAKs);
+    # then the line works again and the NCP goes on sending
+    import bellows.ash as ash_
+
+    maxa = int(ash_.ACK_TIMEOUTS)
+    for dv in ({"n2h": ["drop"] * maxa}, {"h2n": ["drop"] * maxa}, {"h2n": ["corrupt"] * maxa},
+               {"n2h": ["corrupt"] * maxa}, {"n2h": ["drop", "corrupt"] * maxa}, {"h2n": ["drop", "corrupt", "drop"] * maxa},
+               {"n2h": ["drop"] * (maxa + 2)}, {"h2n": ["corrupt"] * (maxa - 1) + ["drop"] * 3}):
+        for w in (1, 2, 3):
+            for nn_ in (0, 2):
+                for ch in ("whole", "byte", "coalesce"):
+                    for n_after in (1, 3, 9):
+                        cases.append(dict(nh=2, nn=nn_, burst=2, nburst=1, dir_vector=dv, window=w, chunking=ch, seed=seed,
+                                          after_failure=n_after, traffic="blackout", dup1=False, gap=0.3 if n_after == 3 else 0.0))
     # long random runs
     rnd = random.Random(seed)
     nlong = 48 if tier == "quick" else 320
@@ -484,8 +519,10 @@ def gen_cases(tier, seed):
 
 
 def shards(tier, seed):
+    from .. import fullstack
+
     n = 64 if tier == "quick" else 192
-    return [{"tier": tier, "seed": seed, "k": k, "n": n} for k in range(n)]
+    return [{"tier": tier, "seed": seed, "k": k, "n": n} for k in range(n)] + fullstack.shard_descs(tier, seed)
 
 
 def run_shard(desc) -> Acc:
@@ -496,6 +533,12 @@ def run_shard(desc) -> Acc:
     from ..contracts import install_ash_contracts
 
     install_ash_contracts(acc)
+    if desc.get("part") == "fullstack":
+        # the same exactly-once rules one layer up: EZSP frames between the real application stack and the NCP
+        # model, carried by this ASH implementation over the faulty line (rtmon/fullstack.py)
+        from .. import fullstack
+
+        return fullstack.run_shard_part(acc, PROPERTY, desc)
     cases = gen_cases(desc["tier"], desc["seed"])
     # long runs first in every shard so that no shard ends with a long tail
     idx = [i for i in range(len(cases)) if i % desc["n"] == desc["k"]]
